@@ -262,3 +262,100 @@ Definition vwanted (mt : mtable) (o : opts) (d : node) (l : loc) : Prop :=
   \/ (exists m, vplace mt o d l (vplace_member o) m /\ satisfies m).
 
 End Spec.
+
+(* ==================================================================== *)
+(* Document well-formedness from which [shared_closed] FOLLOWS (computable;
+   evaluated by the harness on every encoded document, so it is tested on
+   real loaded documents rather than assumed):
+   - [same_oid_same_tree d]: two anchored occurrences that are one object
+     (same oid) are the same tree - what "the loader shares the alias object"
+     means for a rose tree that repeats a shared object at every place it is
+     reachable;
+   - [c07_keys_leaf d]: mapping keys and set members are scalars;
+   - [merged_closed mt d []]: a merged-in entry (merge table) holds only
+     objects met before in document order - `<<: *x` can only refer to a
+     mapping that stands earlier in the document.
+   None of the three mentions the search options. *)
+Definition opt_string_beq (a b : option string) : bool :=
+  match a, b with
+  | None, None => true
+  | Some x, Some y => String.eqb x y
+  | _, _ => false
+  end.
+Definition info_beq (i j : info) : bool :=
+  N.eqb (oid i) (oid j) && opt_string_beq (anchor i) (anchor j) &&
+  Bool.eqb (has_anchor_attr i) (has_anchor_attr j) && opt_string_beq (tag i) (tag j).
+Definition pyval_beq (v w : pyval) : bool :=
+  match v, w with
+  | PNone, PNone => true
+  | PBool a, PBool b => Bool.eqb a b
+  | PInt a, PInt b => Z.eqb a b
+  | PFloat (QArith_base.Qmake n d) r, PFloat (QArith_base.Qmake n' d') r' =>
+      Z.eqb n n' && Pos.eqb d d' && String.eqb r r'
+  | PStr a, PStr b => String.eqb a b
+  | POther a, POther b => String.eqb a b
+  | _, _ => false
+  end.
+
+Fixpoint node_beq (a b : node) {struct a} : bool :=
+  match a, b with
+  | NLeaf i v, NLeaf j w => info_beq i j && pyval_beq v w
+  | NMap i kvs, NMap j kvs' =>
+      info_beq i j &&
+      (fix go (l l' : list (node * node)) {struct l} : bool :=
+         match l, l' with
+         | [], [] => true
+         | kv :: r, kv' :: r' => node_beq (fst kv) (fst kv') && node_beq (snd kv) (snd kv') && go r r'
+         | _, _ => false
+         end) kvs kvs'
+  | NSeq i els, NSeq j els' =>
+      info_beq i j &&
+      (fix go (l l' : list node) {struct l} : bool :=
+         match l, l' with
+         | [], [] => true
+         | x :: r, y :: r' => node_beq x y && go r r'
+         | _, _ => false
+         end) els els'
+  | NSet i els, NSet j els' =>
+      info_beq i j &&
+      (fix go (l l' : list node) {struct l} : bool :=
+         match l, l' with
+         | [], [] => true
+         | x :: r, y :: r' => node_beq x y && go r r'
+         | _, _ => false
+         end) els els'
+  | _, _ => false
+  end.
+
+Definition all_occs (d : node) : list node := (self_occ d ++ anc_occs d)%list.
+
+Definition same_oid_same_tree (d : node) : bool :=
+  let l := all_occs d in
+  forallb (fun x => forallb (fun y => if N.eqb (node_oid x) (node_oid y) then node_beq x y else true) l) l.
+
+Fixpoint c07_keys_leaf (n : node) : bool :=
+  match n with
+  | NLeaf _ _ => true
+  | NMap _ kvs =>
+      (fix go (l : list (node * node)) : bool :=
+         match l with [] => true | kv :: r => is_leaf (fst kv) && c07_keys_leaf (snd kv) && go r end) kvs
+  | NSeq _ els =>
+      (fix go (l : list node) : bool := match l with [] => true | x :: r => c07_keys_leaf x && go r end) els
+  | NSet _ els => forallb is_leaf els
+  end.
+
+Fixpoint merged_closed (mt : mtable) (n : node) (pre : list node) {struct n} : bool :=
+  match n with
+  | NSeq _ els =>
+      all_at elem_occs (fun pre (_ : nat) e => merged_closed mt e (pre ++ self_occ e)%list) els 0 pre
+  | NMap i kvs =>
+      all_at entry_occs
+             (fun pre pos kv =>
+                (if is_merged mt (oid i) pos then all_rep pre (entry_occs kv) else true) &&
+                merged_closed mt (snd kv) ((pre ++ self_occ (fst kv)) ++ self_occ (snd kv))%list)
+             kvs 0 pre
+  | _ => true
+  end.
+
+Definition doc_wf (mt : mtable) (d : node) : bool :=
+  same_oid_same_tree d && c07_keys_leaf d && merged_closed mt d [].
